@@ -397,6 +397,25 @@ def instrument(rec: Rec, poison: dict) -> Iterator[None]:
 
     patch(_peering, "touch", p_touch)
 
+    # ---- the life of a daemon TASK: created by `spawn_daemons` (registered in `running_daemons` at that moment: what the daemon
+    #      killer's sweep sees), over when its `_runner` is over -----------------------------------------------------------
+    orig_runner = daemons._runner
+
+    def d_runner(**kw: Any) -> Any:
+        hid = str(kw["handler"].id)
+        body = getattr(kw["cause"], "body", None) or {}
+        name = (body.get("metadata") or {}).get("name")
+        rec.add("daemonCreated", hid, name)
+
+        async def run() -> Any:
+            try:
+                return await orig_runner(**kw)
+            finally:
+                rec.add("daemonGone", hid, name)
+        return run()
+
+    patch(daemons, "_runner", d_runner)
+
     # ---- exit stoppers of daemons -------------------------------------------------------------------------
     orig_stop_daemon = daemons.stop_daemon
 
